@@ -162,6 +162,10 @@ impl TheDrawFont {
             if bytes[o] == 0 {
                 break;
             }
+            // indicator, name length, name, 4 magic bytes, font type, letter spacing, block size
+            if o + 4 + 1 + FONT_NAME_LEN + 4 + 1 + 1 + 2 > bytes.len() {
+                return Err(TdfError::FileTooShort.into());
+            }
             let indicator = u32::from_le_bytes(bytes[o..(o + 4)].try_into().unwrap());
             if indicator != FONT_INDICATOR {
                 return Err(TdfError::FontIndicatorMismatch.into());
@@ -208,6 +212,9 @@ impl TheDrawFont {
 
             let mut char_lookup_table = Vec::new();
             for _ in 0..CHAR_TABLE_SIZE {
+                if o + 2 > bytes.len() {
+                    return Err(TdfError::FileTooShort.into());
+                }
                 let cur_char = bytes[o] as u16 | ((bytes[o + 1] as u16) << 8);
                 o += 2;
                 char_lookup_table.push(cur_char);
@@ -228,6 +235,9 @@ impl TheDrawFont {
                     return Err(TdfError::GlyphOutsideFontDataSize(char_offset).into());
                 }
                 char_offset += o;
+                if char_offset + 2 > bytes.len() {
+                    return Err(TdfError::DataOverflow(char_offset).into());
+                }
 
                 let width = bytes[char_offset] as usize;
                 char_offset += 1;
@@ -249,6 +259,9 @@ impl TheDrawFont {
                     if matches!(font_type, FontType::Color) {
                         if ch == 13 {
                             continue;
+                        }
+                        if char_offset >= bytes.len() {
+                            return Err(TdfError::DataOverflow(char_offset).into());
                         }
                         ch = bytes[char_offset];
                         char_offset += 1;
